@@ -1,9 +1,12 @@
 /-
-Helper lemmas for C09 (transparency of system simulations).
+Helper lemmas for C09 (transparency of system simulations), part 1: structural facts about
+valid configurations, `Static.resolve`, `Static.flatInputs` and the flattened configuration.
 -/
 import TickitModel.Core.Flatten
 import TickitModel.Core.Flat
 import TickitModel.Lemmas.SimLoop
+import TickitModel.Lemmas.TickEqLemmas
+import TickitModel.Lemmas.RouterLemmas
 
 namespace Tickit
 
@@ -16,5 +19,315 @@ structure Static.Valid (S : Static) : Prop extends Static.WF S where
   parent_unique : (akeys S.parent).Nodup
   /-- nothing is wired INTO `external` and nothing is wired FROM `expose` -/
   pseudo_dir : ∀ L ∈ S.levels, ∀ a p b q, L.wiring.Conn a p b q → b ≠ pseudoExternal ∧ a ≠ pseudoExpose
+
+/-- the fuel given to `Static.resolve` is enough: one more unit changes nothing (so the
+function `S.resolve n` satisfies the recursion equations of `resolve` without fuel). -/
+def Static.ResolveStable (S : Static) (n : Nat) : Prop :=
+  ∀ lvl a p, S.resolve (n + 1) lvl a p = S.resolve n lvl a p
+
+/-- the (input-independent) output changes of device `c` in the initial tick: everything its
+first response reports. -/
+def outC (orc : Oracle) (c : Comp) : List (Port × V) :=
+  match (agetD orc c [])[0]? with
+  | some r => outChanges [] (normDict r.outs)
+  | none => []
+
+/-- the oracle has a first response for `c`, and it does not raise -/
+def OrcOK (orc : Oracle) (c : Comp) : Prop :=
+  ∃ r, (agetD orc c [])[0]? = some r ∧ r.raises = false
+
+/-! ### generic list / dict facts -/
+
+section Dict
+variable {κ β γ : Type} [DecidableEq κ]
+
+theorem flt_alookup_filterMap {m : List (κ × β)} (hn : (akeys m).Nodup) (f : β → Option γ) (k : κ) :
+    alookup (m.filterMap (fun e => (f e.2).map (fun y => (e.1, y)))) k = (alookup m k).bind f := by
+  induction m with
+  | nil => rfl
+  | cons e m ih =>
+    obtain ⟨k', v⟩ := e
+    simp only [akeys_cons, List.nodup_cons] at hn
+    rw [List.filterMap_cons]
+    by_cases hk : k' = k
+    · subst hk
+      cases hf : f v with
+      | none =>
+        simp only [Option.map_none]
+        rw [ih hn.2, alookup_eq_none_iff.2 hn.1]
+        simp [hf]
+      | some y =>
+        simp [hf]
+    · cases hf : f v with
+      | none => simp [ih hn.2, hk]
+      | some y => simp [ih hn.2, hk]
+
+theorem flt_akeys_filterMap_sublist (m : List (κ × β)) (f : β → Option γ) :
+    (akeys (m.filterMap (fun e => (f e.2).map (fun y => (e.1, y))))).Sublist (akeys m) := by
+  induction m with
+  | nil => simp
+  | cons e m ih =>
+    rw [List.filterMap_cons]
+    cases hf : f e.2 with
+    | none => simpa [hf] using ih.cons e.1
+    | some y => simpa [hf] using ih.cons_cons e.1
+
+theorem flt_alookup_map_mk (l : List κ) (f : κ → β) (k : κ) :
+    alookup (l.map (fun c => (c, f c))) k = if k ∈ l then some (f k) else none := by
+  induction l with
+  | nil => simp
+  | cons c l ih =>
+    rw [List.map_cons]
+    by_cases hk : c = k
+    · subst hk; simp
+    · have : k ≠ c := fun h => hk h.symm
+      simp [hk, ih, this]
+
+theorem flt_akeys_map_mk (l : List κ) (f : κ → β) : akeys (l.map (fun c => (c, f c))) = l := by
+  induction l with
+  | nil => rfl
+  | cons c l ih => simp [ih]
+
+theorem flt_length_le_of_nodup_subset {α : Type} [DecidableEq α] {l m : List α} (hn : l.Nodup)
+    (hs : ∀ x ∈ l, x ∈ m) : l.length ≤ m.length := by
+  induction l generalizing m with
+  | nil => simp
+  | cons a l ih =>
+    simp only [List.nodup_cons] at hn
+    have ham : a ∈ m := hs a (by simp)
+    have := ih (m := m.erase a) hn.2 (fun x hx => by
+      have hxa : x ≠ a := fun h => hn.1 (h ▸ hx)
+      exact (List.mem_erase_of_ne hxa).2 (hs x (List.mem_cons_of_mem _ hx)))
+    rw [List.length_erase_of_mem ham] at this
+    have hpos : 0 < m.length := List.length_pos_of_mem ham
+    simp only [List.length_cons]
+    omega
+
+end Dict
+
+/-! ### levels and wires of a valid configuration -/
+
+theorem Static.Valid.level_of_mem {S : Static} (hS : S.Valid) {L : Level} (hL : L ∈ S.levels) :
+    S.level L.name = some L := by
+  have key : ∀ ls : List Level, (ls.map (·.name)).Nodup → L ∈ ls →
+      ls.find? (·.name == L.name) = some L := by
+    intro ls
+    induction ls with
+    | nil => intro _ h; simp at h
+    | cons L' ls ih =>
+      intro hn hL
+      simp only [List.map_cons, List.nodup_cons] at hn
+      rcases List.mem_cons.1 hL with rfl | hL
+      · simp
+      · have hne : L'.name ≠ L.name := fun h => hn.1 (h ▸ List.mem_map.2 ⟨L, hL, rfl⟩)
+        rw [List.find?_cons]
+        have : (L'.name == L.name) = false := by simpa using hne
+        rw [this]
+        exact ih hn.2 hL
+  exact key S.levels hS.level_names hL
+
+theorem Static.Valid.routerOK {S : Static} (hS : S.Valid) {L : Level} (hL : L ∈ S.levels) :
+    RouterOK L.wiring := by
+  obtain ⟨h, h1⟩ := hS.wiring_wf L hL
+  exact
+    { oneSource := h1
+      route_exact := fun a ch hch b q v => Wiring.route_exact' L.wiring h1 a ch hch b q v
+      route_wf := fun a ch =>
+        ⟨(Wiring.route_wf2 L.wiring a ch).1, fun e he =>
+          ⟨(Wiring.route_wf2 L.wiring a ch).2 e he,
+            Wiring.route_noEmpty L.wiring a ch e.1 e.2
+              (alookup_eq_some_of_mem (Wiring.route_wf2 L.wiring a ch).1 he)⟩⟩
+      ups_edge := fun b us hu a => Wiring.mem_ups_iff' h hu a }
+
+theorem Wiring.conn_mem_components {w : Wiring} (h : w.WF) {a : Comp} {p : Port} {b : Comp} {q : Port}
+    (hc : w.Conn a p b q) : a ∈ w.components ∧ b ∈ w.components :=
+  ⟨(Wiring.mem_components_iff' h a).2 (Or.inl (Wiring.mem_akeys_of_conn hc)),
+    (Wiring.mem_components_iff' h b).2 (Or.inr ⟨a, p, q, hc⟩)⟩
+
+theorem Wiring.sourceOf_eq_some {w : Wiring} (h : w.WF) (h1 : w.OneSource) {c : Comp} {q : Port}
+    {a : Comp} {p : Port} : w.sourceOf c q = some (a, p) ↔ w.Conn a p c q := by
+  rw [← InvWiring.conn_fromWiring' w h h1, InvWiring.conn_iff_get2]
+  rfl
+
+theorem Static.mem_devices_iff {S : Static} {c : Comp} : c ∈ S.devices ↔ S.isDevice c := by
+  unfold Static.devices Static.isDevice
+  simp only [List.mem_map, List.mem_filter, Bool.not_eq_true']
+  constructor
+  · rintro ⟨e, ⟨he, hs⟩, rfl⟩
+    exact ⟨alookup_isSome_iff.2 (mem_akeys_of_mem (v := e.2) he), hs⟩
+  · rintro ⟨hp, hs⟩
+    obtain ⟨x, hx⟩ := Option.isSome_iff_exists.1 hp
+    exact ⟨(c, x), ⟨mem_of_alookup_eq_some hx, hs⟩, rfl⟩
+
+theorem Static.Valid.devices_nodup {S : Static} (hS : S.Valid) : S.devices.Nodup := by
+  unfold Static.devices
+  exact List.Sublist.nodup (List.Sublist.map _ List.filter_sublist) hS.parent_unique
+
+theorem Static.flatten_devices_eq (S : Static) (fuel : Nat) : (S.flatten fuel).devices = S.devices := by
+  have h : ∀ x, (S.flatten fuel).isSys x = false := fun x => by simp [Static.flatten, Static.isSys]
+  simp only [Static.devices, h, Bool.not_false]
+  rw [List.filter_eq_self.2 (fun _ _ => rfl)]
+  simp only [Static.flatten, List.map_map]
+  conv => lhs; rw [show ((fun (x : Comp × Comp) => x.1) ∘ fun c => (c, "")) = id from rfl, List.map_id]
+  rfl
+
+/-! ### `Static.resolve` -/
+
+theorem Static.resolve_succ (S : Static) (n : Nat) (lvl a : Comp) (p : Port) :
+    S.resolve (n + 1) lvl a p =
+      if a == pseudoExternal then
+        if lvl == "" then none
+        else match alookup S.parent lvl with
+          | none => none
+          | some P => match S.level P with
+            | none => none
+            | some LP => match LP.wiring.sourceOf lvl p with
+              | none => none
+              | some (a', p') => S.resolve n P a' p'
+      else if S.isSys a then
+        match S.level a with
+        | none => none
+        | some La => match La.wiring.sourceOf pseudoExpose p with
+          | none => none
+          | some (a', p') => S.resolve n a a' p'
+      else some (a, p) := by
+  rw [Static.resolve]
+  rfl
+
+/-- with enough fuel: `external` resolves through the enclosing system's input wire -/
+theorem Static.ResolveStable.external {S : Static} {n : Nat} (h : S.ResolveStable n) {lvl P : Comp}
+    {LP : Level} (hne : lvl ≠ "") (hP : alookup S.parent lvl = some P) (hLP : S.level P = some LP)
+    (p : Port) (x : CPort) :
+    S.resolve n lvl pseudoExternal p = some x ↔
+      ∃ a' p', LP.wiring.sourceOf lvl p = some (a', p') ∧ S.resolve n P a' p' = some x := by
+  rw [← h, Static.resolve_succ]
+  simp only [beq_self_eq_true, if_true, beq_iff_eq, hne, if_false, hP, hLP]
+  cases hs : LP.wiring.sourceOf lvl p with
+  | none => simp
+  | some ap =>
+    obtain ⟨a', p'⟩ := ap
+    simp only [Option.some.injEq, Prod.mk.injEq]
+    constructor
+    · intro h; exact ⟨_, _, ⟨rfl, rfl⟩, h⟩
+    · rintro ⟨_, _, ⟨rfl, rfl⟩, h⟩; exact h
+
+/-- with enough fuel: a system's output resolves through its `expose` wiring -/
+theorem Static.ResolveStable.system {S : Static} {n : Nat} (h : S.ResolveStable n) {lvl a : Comp}
+    {La : Level} (hne : a ≠ pseudoExternal) (hs : S.isSys a = true) (hLa : S.level a = some La)
+    (p : Port) (x : CPort) :
+    S.resolve n lvl a p = some x ↔
+      ∃ a' p', La.wiring.sourceOf pseudoExpose p = some (a', p') ∧ S.resolve n a a' p' = some x := by
+  rw [← h, Static.resolve_succ]
+  simp only [beq_iff_eq, hne, if_false, hs, if_true, hLa]
+  cases hs : La.wiring.sourceOf pseudoExpose p with
+  | none => simp
+  | some ap =>
+    obtain ⟨a', p'⟩ := ap
+    simp only [Option.some.injEq, Prod.mk.injEq]
+    constructor
+    · intro h; exact ⟨_, _, ⟨rfl, rfl⟩, h⟩
+    · rintro ⟨_, _, ⟨rfl, rfl⟩, h⟩; exact h
+
+/-- with enough fuel: a device output resolves to itself -/
+theorem Static.ResolveStable.device {S : Static} {n : Nat} (h : S.ResolveStable n) {lvl a : Comp}
+    (hne : a ≠ pseudoExternal) (hs : S.isSys a = false) (p : Port) :
+    S.resolve n lvl a p = some (a, p) := by
+  rw [← h, Static.resolve_succ]
+  simp [hne, hs]
+
+/-- `resolve` only ever returns devices -/
+theorem Static.Valid.resolve_device {S : Static} (hS : S.Valid) :
+    ∀ (n : Nat) (L : Level), L ∈ S.levels → ∀ (a : Comp) (p : Port) (b : Comp) (q : Port),
+      L.wiring.Conn a p b q → ∀ a₀ p₀, S.resolve n L.name a p = some (a₀, p₀) → S.isDevice a₀ := by
+  intro n
+  induction n with
+  | zero => intro L _ a p b q _ a₀ p₀ h; simp [Static.resolve] at h
+  | succ n ih =>
+    intro L hL a p b q hc a₀ p₀ h
+    rw [Static.resolve_succ] at h
+    by_cases hx : a = pseudoExternal
+    · simp only [hx, beq_self_eq_true, if_true, beq_iff_eq] at h
+      split at h
+      · cases h
+      · split at h
+        · cases h
+        · rename_i P hP
+          split at h
+          · cases h
+          · rename_i LP hLP
+            split at h
+            · cases h
+            · rename_i a' p' hsrc
+              obtain ⟨hLP1, hLP2⟩ := Static.level_some hLP
+              obtain ⟨hwf, hos⟩ := hS.wiring_wf LP hLP1
+              rw [← hLP2] at h
+              exact ih LP hLP1 a' p' _ _ ((Wiring.sourceOf_eq_some hwf hos).1 hsrc) a₀ p₀ h
+    · simp only [beq_iff_eq, hx, if_false] at h
+      split at h
+      · rename_i hsys
+        split at h
+        · cases h
+        · rename_i La hLa
+          split at h
+          · cases h
+          · rename_i a' p' hsrc
+            obtain ⟨hLa1, hLa2⟩ := Static.level_some hLa
+            obtain ⟨hwf, hos⟩ := hS.wiring_wf La hLa1
+            rw [← hLa2] at h
+            exact ih La hLa1 a' p' _ _ ((Wiring.sourceOf_eq_some hwf hos).1 hsrc) a₀ p₀ h
+      · rename_i hsys
+        simp only [Option.some.injEq, Prod.mk.injEq] at h
+        obtain ⟨rfl, rfl⟩ := h
+        have hac := (Wiring.conn_mem_components (hS.wiring_wf L hL).1 hc).1
+        rcases hS.members L hL a hac with hp | ⟨_, hp | hp⟩
+        · exact ⟨by rw [hp]; rfl, by simpa using hsys⟩
+        · exact absurd hp hx
+        · exact absurd hp (hS.pseudo_dir L hL _ _ _ _ hc).2
+
+/-! ### `Static.flatInputs` -/
+
+theorem Static.flatInputs_nodup (S : Static) (n : Nat) (c : Comp) : (akeys (S.flatInputs n c)).Nodup := by
+  unfold Static.flatInputs
+  cases hp : alookup S.parent c with
+  | none => simp
+  | some lvl =>
+    cases hL : S.level lvl with
+    | none => simp [hL]
+    | some L =>
+      simp only [hL]
+      refine List.Sublist.nodup (flt_akeys_filterMap_sublist _ (fun e : CPort => S.resolve n lvl e.1 e.2)) ?_
+      exact DictWF_agetD (InvWiring.wf_fromWiring' L.wiring).2 c
+
+/-- the resolved source of an input port of a component -/
+theorem Static.Valid.flatInputs_spec {S : Static} (hS : S.Valid) (n : Nat) (c : Comp) (q : Port)
+    (x : CPort) :
+    alookup (S.flatInputs n c) q = some x ↔
+      ∃ lvl L a p, alookup S.parent c = some lvl ∧ S.level lvl = some L ∧ L.wiring.Conn a p c q ∧
+        S.resolve n lvl a p = some x := by
+  unfold Static.flatInputs
+  cases hp : alookup S.parent c with
+  | none => simp
+  | some lvl =>
+    cases hL : S.level lvl with
+    | none => simp [hL]
+    | some L =>
+      obtain ⟨hL1, _⟩ := Static.level_some hL
+      obtain ⟨hwf, hos⟩ := hS.wiring_wf L hL1
+      simp only [hL, Option.some.injEq, exists_and_left, exists_eq_left']
+      rw [flt_alookup_filterMap (DictWF_agetD (InvWiring.wf_fromWiring' L.wiring).2 c)
+        (fun e : CPort => S.resolve n lvl e.1 e.2)]
+      constructor
+      · intro h
+        cases hs : alookup (agetD (InvWiring.fromWiring L.wiring) c []) q with
+        | none => simp [hs] at h
+        | some ap =>
+          obtain ⟨a, p⟩ := ap
+          rw [hs] at h
+          exact ⟨a, p, (Wiring.sourceOf_eq_some hwf hos).1 hs, h⟩
+      · rintro ⟨a, p, hc, hr⟩
+        have hs : alookup (agetD (InvWiring.fromWiring L.wiring) c []) q = some (a, p) :=
+          (Wiring.sourceOf_eq_some hwf hos).2 hc
+        rw [hs]
+        exact hr
 
 end Tickit
